@@ -8,8 +8,9 @@ TIE_THEOREM = "Relic.Props.C03 (models Relic.Model.PE vs lib/authenticode)"
 UNPROVED = ['Relic.Props.C03.vsix_payload_preserved_full (every part that is not signature machinery survives): false, witness vsix_foreign_parts_dropped; proved: vsix_payload_preserved / vsix_payload_sublist_eq / vsix_dropped_iff relative to keepFile', 'zip_rewrite_preserves_members_full (view of the output through Relic.Spec.Zip = added ++ kept): statement only; proved at layout level (zip_rewrite_preserves_members)']
 IMPL_PARALLEL = 16
 install(globals(), "C03", ["pe", "e2e", "cab", "ps", "jar", "ziprw", "xsig", "deb", "appx", "pgp", "macho", "vsix", "xap", "msisign", "dmg"])
-RULE = RULE + (" || MSI containers: the hist / wr / adds / atab ops of C18 (every pre-existing stream and storage identical in name, "
-               "metadata and bytes after InsertMSISignature / AddFile / DeleteFile histories; writer tables = model tables)")
+RULE = RULE + (" || MSI containers: the hist / wr / wb / adds / atab ops of C18 (every pre-existing stream and storage identical in name, "
+               "metadata and bytes after InsertMSISignature / AddFile / DeleteFile histories; writer tables = model tables; written file bytes = "
+               "the byte-level model's prediction, for which streams_preserved is proved)")
 
 
 def run(ctx):
@@ -22,7 +23,7 @@ def run(ctx):
         cov, findings, known = correspondence("C03", c, mod)
     if rp is None or any(op.startswith("C18 ") for op in rp):
         c18 = importlib.import_module("props.c18")
-        c = dict(ctx, c18_kinds=("hist", "wr", "adds", "atab"), c18_prop="C03")
+        c = dict(ctx, c18_kinds=("hist", "wr", "adds", "atab", "wb"), c18_prop="C03")
         if rp is not None:
             c["replay_ops"] = [op for op in rp if op.startswith("C18 ")]
         c2, f2, k2 = c18.run(c)
